@@ -34,7 +34,9 @@ CONSTANTS
   Dev_UnevaluatedOperandFolded,    \* eval(): right operand of ||/&& folded (and may trap) although not evaluated
   Dev_NoDivisionGuard,             \* binary(): host division without guard: x/0, x%0, MIN/-1, MIN%-1 raise SIGFPE
   Dev_CondSameTypeNoPromotion,     \* condexpr(): `lt == rt` shortcut skips the usual arithmetic conversions (C05)
-  Dev_BareAddressMinusRejected     \* eval()/dataitem(): `P - C` on an address that is not already `P + C1` stays a TSUB node
+  Dev_BareAddressMinusRejected,    \* eval()/dataitem(): `P - C` on an address that is not already `P + C1` stays a TSUB node
+  Dev_SwapReassocClobbers          \* eval() TADD: after `C2 + (P + C1)` is swapped the re-association still writes into expr->u.binary.r,
+                                   \* which is the (P + C1) node it is reading: `long p = 2 + (long)&a[1];` dies with SIGSEGV
 
 (* ====================================================================== *)
 (* Types                                                                    *)
@@ -437,6 +439,8 @@ Fold(n) ==
     [] n.k = "cast" ->
          (LET a == Fold(n.a) IN
           IF a.st # "ok" THEN a
+          ELSE IF ~IsK(a.n) /\ a.n.t = "ptr" /\ n.t \in {"ptr", "long", "ulong", "llong", "ullong"}
+               THEN R("ok", a.n, a.dv)      \* pointer -> pointer / integer of the size of long: `expr = l` (6.6p10 extension)
           ELSE IF ~IsK(a.n) THEN R("ok", [n EXCEPT !.a = a.n], a.dv)
           ELSE LET f == FoldCast(n.t, a.n) IN [f EXCEPT !.dv = @ \cup a.dv])
     [] n.k = "cond" -> R("ok", n, {})                     \* eval() has no EXPRCOND case
@@ -475,8 +479,8 @@ Fold(n) ==
                IF b.st # "ok" THEN [b EXCEPT !.dv = @ \cup a.dv]
                ELSE IF IsK(a.n) /\ IsK(b.n)
                     THEN LET f == FoldBinary(n.op, n.t, a.n, b.n) IN [f EXCEPT !.dv = @ \cup a.dv \cup b.dv]
-               ELSE IF n.t = "ptr" /\ n.op \in {"+", "-"}
-                    THEN \* TADD: `if (r->kind == EXPRBINARY) swap`; then (P + C1) +- C2 -> P + (C1 +- C2)
+               ELSE IF n.op \in {"+", "-"}
+                    THEN \* TADD: `if (r->kind == EXPRBINARY) swap`; then (P + C1) +- C2 -> P + (C1 +- C2), whatever the type of expr
                          LET sw == n.op = "+" /\ b.n.k = "bin"
                              l == IF sw THEN b.n ELSE a.n
                              r == IF sw THEN a.n ELSE b.n
@@ -484,12 +488,13 @@ Fold(n) ==
                              same == R("ok", [n EXCEPT !.l = a.n, !.r = b.n], dv)
                          IN IF ~IsK(r) THEN same
                             ELSE IF l.k = "bin" /\ l.t = "ptr" /\ l.op = "+" /\ IsK(l.r)
-                                 THEN LET f == FoldBinary(n.op, "ulong", l.r, r)
-                                      IN IF f.st # "ok" THEN [f EXCEPT !.dv = @ \cup dv]
-                                         ELSE R("ok", NBin("+", "ptr", l.l, f.n), dv \cup f.dv)
+                                 THEN (IF sw /\ Dev_SwapReassocClobbers THEN Bad("trap", dv \cup {"SwapReassocClobbers"})
+                                       ELSE LET f == FoldBinary(n.op, r.t, l.r, r)        \* folded into the constant node r
+                                            IN IF f.st # "ok" THEN [f EXCEPT !.dv = @ \cup dv]
+                                               ELSE R("ok", NBin("+", n.t, l.l, f.n), dv \cup f.dv))
                             ELSE IF n.op = "-" /\ l.k = "addr"
                                  THEN (IF Dev_BareAddressMinusRejected THEN [same EXCEPT !.dv = @ \cup {"BareAddressMinusRejected"}]
-                                       ELSE LET f == FoldNeg("ulong", r) IN R("ok", NBin("+", "ptr", l, f.n), dv))
+                                       ELSE LET f == FoldNeg(r.t, r) IN R("ok", NBin("+", n.t, l, f.n), dv))
                             ELSE same
                     ELSE R("ok", [n EXCEPT !.l = a.n, !.r = b.n], a.dv \cup b.dv))
 
@@ -587,45 +592,70 @@ Build(e) ==
 (* ====================================================================== *)
 (* Address constants: &arr[i], arr + c, P + C1 +- C2 (6.6p9)                 *)
 (* ====================================================================== *)
-(* surface: [k "sym"] = arr;  [k "idx", a] = &arr[a];  [k "padd", op, p, c, sw] = p op c  (sw: written c + p) *)
+(* surface: [k "sym"] = arr;  [k "mem"] = &st.m (st = struct { char c; T m; });  [k "idx", a] = &arr[a];        *)
+(*          [k "pcast", to, p] = (long)p or (char * )p;  [k "padd", op, p, c, sw] = p op c  (sw: written c + p)  *)
 ESym == [k |-> "sym"]
+EMem == [k |-> "mem"]
 EIdx(a) == [k |-> "idx", a |-> a]
+EPCast(to, p) == [k |-> "pcast", to |-> to, p |-> p]
 EPAdd(op, p, c, sw) == [k |-> "padd", op |-> op, p |-> p, c |-> c, sw |-> sw]
-(* declarative: element index, defined while it stays within [0, an] (6.5.6p8) *)
-RECURSIVE PtrIndex(_, _)
-PtrIndex(e, an) ==
-  LET chk(i) == IF ZIsNeg(i) \/ ZLt(ZK(an), i) THEN NoV("ub", "ptr") ELSE OkV("ptr", i) IN
-  CASE e.k = "sym" -> OkV("ptr", Z0)
-    [] e.k = "idx" -> (LET a == ConstEval(e.a) IN IF a.st # "ok" THEN NoV(a.st, "ptr") ELSE chk(a.v))
-    [] e.k = "padd" -> (LET p == PtrIndex(e.p, an)
-                            c == ConstEval(e.c)
-                        IN IF p.st # "ok" THEN p ELSE IF c.st # "ok" THEN NoV(c.st, "ptr")
-                           ELSE chk(IF e.op = "+" THEN ZAdd(p.v, c.v) ELSE ZSub(p.v, c.v)))
-PtrEval(e, es, an) ==        \* byte offset from the array's symbol
-  LET i == PtrIndex(e, an) IN IF i.st # "ok" THEN i ELSE OkV("ptr", ZMul(i.v, ZK(es)))
+RECURSIVE AddrType(_)
+AddrType(e) == CASE e.k \in {"sym", "mem", "idx"} -> "elem" [] e.k = "pcast" -> e.to [] e.k = "padd" -> AddrType(e.p)
+(* declarative: byte offset from the object's symbol.  While the expression has pointer type it must stay inside the  *)
+(* object or one past it (6.5.6p8); once converted to an integer (ext) the arithmetic is plain integer arithmetic and  *)
+(* acceptance as a constant is an extension (6.6p10): the value is prescribed only if the implementation accepts it.  *)
+AV(st, v, ext, unit, sym) == [st |-> st, v |-> v, ext |-> ext, unit |-> unit, sym |-> sym]
+RECURSIVE AddrEval(_, _, _)
+AddrEval(e, es, an) ==
+  LET hi(sym) == IF sym = "arr" THEN an * es ELSE 2 * es
+      chk(r) == IF r.st = "ok" /\ ~r.ext /\ (ZIsNeg(r.v) \/ ZLt(ZK(hi(r.sym)), r.v)) THEN [r EXCEPT !.st = "ub"] ELSE r
+  IN CASE e.k = "sym" -> AV("ok", Z0, FALSE, es, "arr")
+       [] e.k = "mem" -> AV("ok", ZK(es), FALSE, es, "st")
+       [] e.k = "idx" -> (LET a == ConstEval(e.a) IN
+                          IF a.st # "ok" THEN AV(a.st, Z0, FALSE, es, "arr") ELSE chk(AV("ok", ZMul(a.v, ZK(es)), FALSE, es, "arr")))
+       [] e.k = "pcast" -> (LET p == AddrEval(e.p, es, an) IN IF e.to = "long" THEN [p EXCEPT !.ext = TRUE, !.unit = 1] ELSE [p EXCEPT !.unit = 1])
+       [] e.k = "padd" -> (LET p == AddrEval(e.p, es, an)
+                               c == ConstEval(e.c)
+                           IN IF p.st # "ok" THEN p ELSE IF c.st # "ok" THEN [p EXCEPT !.st = c.st]
+                              ELSE LET d == ZMul(c.v, ZK(p.unit)) IN chk([p EXCEPT !.v = IF e.op = "+" THEN ZAdd(@, d) ELSE ZSub(@, d)]))
+PtrEval(e, es, an) == AddrEval(e, es, an)
 
 (* implementation: mkbinaryexpr(TADD/TSUB, pointer, integer) scales the integer as unsigned long *)
-Addr == [k |-> "addr", t |-> "ptr"]
+AddrOf(sym) == [k |-> "addr", t |-> "ptr", sym |-> sym]
+Addr == AddrOf("arr")
 Scaled(n, es) == NBin("*", "ulong", Cv(n, "ulong"), KI("ulong", CK(es)))
+AmpDeref(n) == [k |-> "amp", t |-> "ptr", a |-> [k |-> "deref", t |-> "obj", a |-> n]]
+(* PB: R(...) plus the unit pointer arithmetic scales by *)
+PB(r, unit) == [st |-> r.st, n |-> r.n, dv |-> r.dv, unit |-> unit]
 RECURSIVE PBuild(_, _)
 PBuild(e, es) ==
-  CASE e.k = "sym" -> R("ok", Addr, {})
+  CASE e.k = "sym" -> PB(R("ok", Addr, {}), es)
+    [] e.k = "mem" ->       \* &st.m: postfixexpr builds *(T * )((unsigned long)&st + offset), then & is applied
+         PB(R("ok", AmpDeref(NBin("+", "ptr", [k |-> "cast", t |-> "ulong", a |-> AddrOf("st")], KI("ulong", CK(es)))), {}), es)
     [] e.k = "idx" ->       \* &arr[a] = &*(arr + a): mkunaryexpr keeps both nodes, eval() cancels them
          (LET a == Build(e.a) IN
-          IF a.st # "ok" THEN a
-          ELSE R("ok", [k |-> "amp", t |-> "ptr", a |-> [k |-> "deref", t |-> "obj", a |-> NBin("+", "ptr", Addr, Scaled(a.n, es))]], a.dv))
+          IF a.st # "ok" THEN PB(a, es) ELSE PB(R("ok", AmpDeref(NBin("+", "ptr", Addr, Scaled(a.n, es))), a.dv), es))
+    [] e.k = "pcast" ->
+         (LET p == PBuild(e.p, es) IN
+          IF p.st # "ok" THEN p ELSE PB(R("ok", [k |-> "cast", t |-> (IF e.to = "long" THEN "long" ELSE "ptr"), a |-> p.n], p.dv), 1))
     [] e.k = "padd" ->
          (LET p == PBuild(e.p, es) IN
           IF p.st # "ok" THEN p
           ELSE LET c == Build(e.c) IN
-               IF c.st # "ok" THEN [c EXCEPT !.dv = @ \cup p.dv]
-               ELSE R("ok", NBin(e.op, "ptr", p.n, Scaled(c.n, es)), p.dv \cup c.dv))
+               IF c.st # "ok" THEN PB([c EXCEPT !.dv = @ \cup p.dv], p.unit)
+               ELSE IF p.n.t = "ptr"
+                    THEN PB(R("ok", NBin(e.op, "ptr", p.n, Scaled(c.n, p.unit)), p.dv \cup c.dv), p.unit)   \* pointer operand goes left
+               ELSE LET ct == ImplCommon(p.n.t, c.n.t)                                                     \* integer arithmetic
+                        pl == Cv(p.n, ct)
+                        cr == Cv(c.n, ct)
+                    IN PB(R("ok", IF e.sw THEN NBin(e.op, ct, cr, pl) ELSE NBin(e.op, ct, pl, cr), p.dv \cup c.dv), p.unit))
 (* qbe.c dataitem(): what an initializer may be *)
 DataItem(f) ==
-  IF f.st # "ok" THEN f
-  ELSE IF f.n.k = "addr" THEN R("ok", KI("ulong", C0), f.dv)
-  ELSE IF f.n.k = "bin" /\ f.n.op = "+" /\ f.n.l.k = "addr" /\ IsK(f.n.r) THEN R("ok", KI("ulong", f.n.r.u), f.dv)
-  ELSE Bad("error", f.dv)          \* "initializer is not a constant expression"
+  IF f.st # "ok" THEN [st |-> f.st, n |-> f.n, dv |-> f.dv, sym |-> "none"]
+  ELSE IF f.n.k = "addr" THEN [st |-> "ok", n |-> KI("ulong", C0), dv |-> f.dv, sym |-> f.n.sym]
+  ELSE IF f.n.k = "bin" /\ f.n.op = "+" /\ f.n.l.k = "addr" /\ IsK(f.n.r)
+       THEN [st |-> "ok", n |-> KI("ulong", f.n.r.u), dv |-> f.dv, sym |-> f.n.l.sym]
+  ELSE [st |-> "error", n |-> KI("int", C0), dv |-> f.dv, sym |-> "none"]          \* "initializer is not a constant expression"
 
 (* FoldModel(e): what the consumer of a constant expression receives: eval(condexpr()) *)
 FoldModel(e) ==
@@ -651,7 +681,8 @@ FoldAddress(e, es) ==
   LET b == PBuild(e, es) IN
   IF b.st # "ok" THEN b ELSE LET f == Fold(b.n) IN DataItem([f EXCEPT !.dv = @ \cup b.dv])
 AgreesAddr(s, m) ==
-  CASE s.st = "ok" -> m.st = "ok" /\ m.n.u = COfZ(s.v)
+  CASE s.st = "ok" /\ ~s.ext -> m.st = "ok" /\ m.sym = s.sym /\ m.n.u = COfZ(s.v)
+    [] s.st = "ok" /\ s.ext -> m.st # "trap" /\ (m.st = "ok" => (m.sym = s.sym /\ m.n.u = COfZ(s.v)))   \* may be refused, never wrong
     [] s.st = "ub" -> m.st # "trap"
     [] OTHER -> TRUE
 
